@@ -236,8 +236,16 @@ def text_columns(repo, res):
     U = units.id
     # the NumPy reader gets usecols, and its result is what is zipped
     npcall = [c for c in ast.walk(fn.node) if isinstance(c, ast.Call) and norm(c.func) == "np.loadtxt"]
-    ok = len(npcall) == 1 and norm(kwarg_of(npcall[0], "usecols")) == "usecols"
+    ok = len(npcall) == 1 and kwarg_of(npcall[0], "usecols") is not None and norm(kwarg_of(npcall[0], "usecols")) == "usecols"
     res.check(ok, "loadtxt:usecols-forwarded", fn.where(), "np.loadtxt receives the caller's usecols", rid=r5)
+    # ... and every other format parameter loadtxt shares with np.loadtxt: unyt's own header scan and NumPy's reader must
+    # agree on what a comment line and a column separator are
+    for prm in ("comments", "delimiter", "dtype"):
+        if prm in fn.params and len(npcall) == 1:
+            v_ = kwarg_of(npcall[0], prm)
+            res.check(v_ is not None and norm(v_) == prm, f"loadtxt:{prm}-forwarded", fn.where(npcall[0]), f"loadtxt does not hand its `{prm}` argument to np.loadtxt: the header is scanned with the caller's value while NumPy reads the numbers with its own default (a file written with comments='%' cannot be read back)", f"{prm}={prm}", norm(v_) if v_ is not None else None, rid=r5)
+    up_ = kwarg_of(npcall[0], "unpack") if len(npcall) == 1 else None
+    res.check(isinstance(up_, ast.Constant) and up_.value is True, "loadtxt:unpack", fn.where(), "np.loadtxt is asked for one array per column (unpack=True): the columns are paired with the header units", rid=r5)
     # re-bindings of the unit list that depend on usecols
     from engine.sem import canon_node
 
